@@ -528,6 +528,27 @@ def CbF.call (f : CbF) (byHandler isErr bad completed : Bool) : Exec × Bool :=
 def checkInvokeF (f : CbF) (completed : Bool) : Exec :=
   if f.isNil then .ret else (f.call false true false completed).1
 
+/-- `CheckInvokeCBFunc(f, e, result)` with ANY `(e, result)` — the helper (apientry/utils.go) every handler of the
+repository completes through (the framework's own uses above always pass an error): the nil test, then the call.
+There is no recover in it: a panic of `f` comes back OUT of the helper into the handler's frame, and `CallMethod`'s
+`completed` logic relies on exactly that (a completion that did not go through must reach `SafeCall`'s recover) -/
+def checkInvokeAny (f : CbF) (byHandler isErr bad completed : Bool) : Exec × Bool :=
+  if f.isNil then (.ret, completed) else f.call byHandler isErr bad completed
+
+/-- the helper with a `defer func() { recover() }()` in front of the call — NOT what the code does; kept for the witness
+`Props.C13.recovering_helper_loses_the_completion` only: the panic of `f` ends inside the helper, which returns normally -/
+def checkInvokeAnyRecovering (f : CbF) (byHandler isErr bad completed : Bool) : Exec × Bool :=
+  let x := checkInvokeAny f byHandler isErr bad completed
+  (x.1.recoverWith .ret, x.2)
+
+/-- a handler body that completes through a helper `inv` instead of calling the function itself (same script as `playBody`) -/
+def playBodyVia (inv : CbF → Bool → Bool → Bool → Bool → Exec × Bool) (f : CbF) (bad : Bool) : List Bool → Bool → Exec × Bool
+  | [], d => (.ret, d)
+  | c :: r, d =>
+    let x := inv f true (!c) bad d
+    if x.1.panicking then x
+    else let y := playBodyVia inv f bad r x.2; (x.1.andThen y.1, y.2)
+
 /-- the completions a handler body makes through the function it was handed, in order (user code, scripted by
 `Beh.comps`; `c` = with a value); a panic of the function ends the body there.  Threads `completed` -/
 def playBody (f : CbF) (bad : Bool) : List Bool → Bool → Exec × Bool
@@ -649,6 +670,19 @@ def handleRequestX (disp : Option (List Collection)) (dec : DecoderX) (rc : Byte
     else let l := legacyX legacy isNotify hasSender; (x.andThen l.1, l.2)
   | none => legacyX legacy isNotify hasSender
 
+/-- `Service.handleRequest` with the body as `remote.Deserialize(request.Body, request.Type, …)` finds it: the
+fall-through deserialises BEFORE it looks for a legacy receiver and `panic(err)`s when that fails (a type name the
+receiving process does not know, bytes that are not that type) — also right after `Dispatch` answered "no method".
+A request the dispatcher processed never gets there.  `bodyOK = true` is `handleRequestX` -/
+def handleRequestXB (bodyOK : Bool) (disp : Option (List Collection)) (dec : DecoderX) (rc : Bytes) (route data : Bytes)
+    (isNotify hasSender : Bool) (legacy : Legacy) (b : Beh) : Exec × Bool :=
+  if bodyOK then handleRequestX disp dec rc route data isNotify hasSender legacy b
+  else
+    match (if route ≠ [] then disp.map (fun cols => dispatchX cols dec rc route data isNotify hasSender b) else none) with
+    | some (true, x) => (x, false)
+    | some (false, x) => (x.andThen .panic, false)
+    | none => (.panic, false)
+
 /-! ### reading an execution -/
 
 def compOfEv : Ev → Option Comp
@@ -664,6 +698,22 @@ def runOfEv : Ev → Option (Handler × Bool × ArgV)
 def Exec.comps (x : Exec) : List Comp := x.evs.filterMap compOfEv
 /-- the handler invocations of an execution, in order -/
 def Exec.runs (x : Exec) : List (Handler × Bool × ArgV) := x.evs.filterMap runOfEv
+
+/-! ### completions made AFTER the call returned
+
+A handler may keep the function it was handed and complete from a timer / another goroutine (`late` scripts of the
+harness).  What it kept is `CallMethod`'s closure `handlerCB` around the caller's `cbFunc`; it is invoked with NO
+`SafeCall` above it: a completion function that panics on the value (the dispatcher's closure: `Response` on an
+unserialisable result) panics in that goroutine and nothing is completed. -/
+
+/-- `x` = the execution of the call itself; then the handler that ran in it (request-shaped, handed a non-nil function,
+the call returned) plays the script `late` through the function it kept.  Nothing is left to play when no handler ran,
+when it is notify-shaped or was handed nil, or when the call panicked -/
+def Exec.thenLate (x : Exec) (cb : Cb) (bad : Bool) (late : List Bool) : Exec :=
+  match x.runs, cb with
+  | [(h, _, _)], some picky =>
+    if h.isRequest && !x.panicking then x.andThen (playBody (.handlerCB picky) bad late false).1 else x
+  | _, _ => x
 
 /-! ## registry (apimapper/registry/api_registry.go) under concurrency
 
